@@ -13,6 +13,7 @@ import (
 	"github.com/gebn/bmc/pkg/dcmi"
 	"github.com/gebn/bmc/pkg/ipmi"
 	"github.com/gebn/bmc/pkg/vsched"
+	"github.com/google/gopacket"
 
 	"verif/env"
 	"verif/ref"
@@ -93,7 +94,11 @@ func (t *threadReader) Read(p []byte) (int, error) {
 
 // ---- workloads ---------------------------------------------------------------
 
-var c19Workloads = []string{"handshake-default-suites+GetDeviceID", "session:GetDeviceID+GetChassisStatus", "session:dcmi.GetPowerReading", "session:RetrieveSDRRepository", "session:SetPrivilege+Close", "sessionless:GetSystemGUID+GetChannelAuthCaps"}
+var c19Workloads = []string{"handshake-default-suites+GetDeviceID", "session:GetDeviceID+GetChassisStatus", "session:dcmi.GetPowerReading", "session:RetrieveSDRRepository", "session:SetPrivilege+Close", "sessionless:GetSystemGUID+GetChannelAuthCaps",
+	"session:dcmi.GetSensorInfo", "session:SensorReader.Read(linearised)", "sessionless:RetrieveSupportedCipherSuites+dcmi.Capabilities"}
+
+// c19NeedsSession lists the workloads that run on a session prepared beforehand.
+var c19NeedsSession = map[int]bool{1: true, 2: true, 3: true, 4: true, 6: true, 7: true}
 
 type c19Thread struct {
 	w    *World
@@ -113,6 +118,9 @@ func c19Config(slot int) ref.Config {
 	cfg.SystemGUID = arr16(byte(0xB0+slot), 2)
 	cfg.PowerReading = append([]byte{}, cfg.PowerReading...)
 	cfg.PowerReading[0] = byte(100 + slot)
+	cfg.Sensors = map[byte][]byte{0x37: {byte(0x40 + slot*9), 0xC0, 0x00}}
+	cfg.DCMISensors = map[byte][]uint16{0x37: {uint16(0x10 + slot), uint16(0x20 + slot)}, 0x03: {uint16(0x30 + slot)}, 0x07: {}}
+	cfg.DCMIPageSize = 1
 	cfg.Repo = &ref.Repo{LastAdd: 100, LastErase: 50, Recs: []ref.SDRRec{
 		{ID: uint16(1 + slot), Data: fsrBytes(uint16(1+slot), byte(slot), fmt.Sprintf("T%d", slot))},
 		{ID: uint16(0x100 + slot), Data: fsrBytes(uint16(0x100+slot), byte(slot+1), fmt.Sprintf("Inlet%d", slot))},
@@ -137,7 +145,7 @@ func c19Prepare(slot, workload int, y func(string), afterWorld func()) *c19Threa
 		}
 		return []env.Answer{env.Honest()}
 	}
-	if workload >= 1 && workload <= 4 {
+	if c19NeedsSession[workload] {
 		s, err := th.w.Conn.NewV2Session(th.w.Ctx, &bmc.V2SessionOpts{SessionOpts: bmc.SessionOpts{Username: fmt.Sprintf("user%d", slot), Password: cfg.Password, MaxPrivilegeLevel: ipmi.PrivilegeLevelAdministrator}, CipherSuites: []ipmi.CipherSuite{ipmi.CipherSuite17}})
 		if err != nil {
 			panic("C19 harness: session setup: " + err.Error())
@@ -179,6 +187,29 @@ func (th *c19Thread) run(slot, workload int) {
 		l, err := th.sess.SetSessionPrivilegeLevel(w.Ctx, ipmi.PrivilegeLevelOperator)
 		fmt.Fprintf(o, "priv=%v err=%v;", l, err)
 		fmt.Fprintf(o, "close err=%v;", th.sess.Close(w.Ctx))
+	case 6:
+		si, err := dcmi.GetSensorInfo(w.Ctx, th.sess)
+		fmt.Fprintf(o, "sensorinfo=%+v err=%v;", si, err)
+	case 7:
+		var fsr ipmi.FullSensorRecord
+		rec := c15Record(c15Case{Fmt: slot % 3, Lin: 8 + slot%3, M: 3 + slot, B: -2, K1: 1, K2: -1})
+		if err := fsr.DecodeFromBytes(rec, gopacket.NilDecodeFeedback); err != nil {
+			fmt.Fprintf(o, "fsr err=%v;", err)
+			break
+		}
+		rd, err := bmc.NewSensorReader(&fsr)
+		fmt.Fprintf(o, "reader err=%v;", err)
+		if err == nil {
+			for i := 0; i < 2; i++ {
+				v, err := rd.Read(w.Ctx, th.sess)
+				fmt.Fprintf(o, "read=%v err=%v;", v, err)
+			}
+		}
+	case 8:
+		recs, err := bmc.RetrieveSupportedCipherSuites(w.Ctx, w.Conn)
+		fmt.Fprintf(o, "suites=%v err=%v;", recs, err)
+		c, err := dcmi.NewSessionlessCommander(w.Conn).GetDCMICapabilitiesInfoEnhancedSystemPowerStatisticsAttrs(w.Ctx)
+		fmt.Fprintf(o, "caps=%+v err=%v;", c, err)
 	case 5:
 		g, err := w.Conn.GetSystemGUID(w.Ctx)
 		fmt.Fprintf(o, "guid=%x err=%v;", g, err)
@@ -460,10 +491,7 @@ func runC19(r *rep.R) {
 			check(x)
 		}
 		rec(x, 0, true)
-		r.Count("max_scheduling_points_per_execution", 0)
-		if int64(maxPoints) > r.Counters["max_points"] {
-			r.Counters["max_points"] = int64(maxPoints)
-		}
+		_ = maxPoints
 	}
 	k := 1
 	if thorough(r) {
